@@ -21,13 +21,15 @@ Theorem pipeline_gt_vested v2 l w0 lf wf ef bf w1 ls ws es bs w2 sd rest ld wd e
   0 < price (st w0) ->
   bal w0 sc_addr (lp_token (st w0)) 0 = total_deposited (st w0) ->
   tpt (st w0) * (nr_winning (st w0) + total_reserved v2 (st w0)) <= total_deposited (st w0) ->
-  ClaimInv w3 (map fst l) /\ VInv v2 w3 (map fst l) 0.
+  ClaimInv w3 (map fst l) /\ VInv v2 w3 (map fst l) 0 /\
+  pay_token (st w3) = pay_token (st w0) /\ lp_token (st w3) = lp_token (st w0).
 Proof.
   intros Hpre Hndg Haf Ef Hseeds Has Es Had Ed Hsch Htc Hcb Hprice Hbal Hdep.
   pose proof Hpre as [Hop0 _ _ _ _ _ _ _].
   destruct (pipeline_gt H v2 l w0 lf wf ef bf w1 ls ws es bs w2 sd rest ld wd ed bd w3 Hpre Hndg Haf Ef Hseeds Has Es Had Ed)
     as (Hci & (Hc3 & Hn3 & Hcp3 & Hl3) & _ & _).
   split; [exact Hci|].
+  cut (VInv v2 w3 (map fst l) 0 /\ (pay_token (st w3) = pay_token (st w0) /\ lp_token (st w3) = lp_token (st w0))); [tauto|].
   destruct (pipeline_to_claims H l w0 lf wf ef bf w1 ls ws es bs w2 sd rest Hpre Haf Ef Hseeds Has Es)
     as (_ & _ & _ & Hn2 & _ & _ & Hcp2 & _). cbn zeta in Hn2, Hcp2.
   destruct (pipeline_postsel H l w0 lf wf ef bf w1 ls ws es bs w2 sd rest Hpre Haf Ef Hseeds Has Es)
@@ -48,6 +50,7 @@ Proof.
   { rewrite Hn3. pose proof (count_winning_le_length (st w2) (range_ids 1 (last_ticket_id (st w2)))) as Hle.
     rewrite range_ids_length in Hle.
     rewrite Hcount in Hle. lia. }
+  split; [|rewrite Hs3, Hs2, Hs1; split; reflexivity].
   apply VInv_start.
   - eapply sched_inv_ext; [| | | |exact Hsch]; rewrite Hs3, Hs2, Hs1; reflexivity.
   - intros a. rewrite Hs3, Hs2, Hs1. cbn. apply Htc.
